@@ -9,6 +9,10 @@
 (*   "failPH"      unresolved placeholder (raises while converting)        *)
 (*   "failT"       value the backend cannot express (raises while converting) *)
 (*   "failC"       condition names a missing detection (raises while parsing) *)
+(*   "okneg"       converts; a value below a NOT is rendered inside the    *)
+(*                 backend's not-equals context (class templates swapped)  *)
+(*   "failNPH"     unresolved placeholder BELOW a NOT: raises inside that  *)
+(*                 context                                                 *)
 (* The conversion of one rule is several steps, as in Backend.convert_rule: *)
 (*   Apply pipeline (resets per-rule pipeline state first) ;               *)
 (*   Convert conditions (may swap class templates, restores them) ;        *)
@@ -17,38 +21,48 @@
 EXTENDS Integers, Sequences, FiniteSets, SequencesExt
 
 Concat(ss) == FoldLeft(LAMBDA acc, s : acc \o s, <<>>, ss)
-Kinds == {"ok1", "ok2", "okstate", "oknest", "failP", "failPH", "failT", "failC"}     \* oknest: state set by an item inside a nested pipeline
-Fails(k) == k \in {"failP", "failPH", "failT", "failC"}
-FailStage(k) == CASE k = "failP" -> "apply" [] k \in {"failPH", "failT", "failC"} -> "convert" [] OTHER -> "none"
+Kinds == {"ok1", "ok2", "okstate", "oknest", "okneg", "failP", "failPH", "failT", "failC", "failNPH"}     \* oknest: state set by an item inside a nested pipeline
+Fails(k) == k \in {"failP", "failPH", "failT", "failC", "failNPH"}
+FailStage(k) == CASE k = "failP" -> "apply" [] k \in {"failPH", "failT", "failC"} -> "convert" [] k = "failNPH" -> "negated" [] OTHER -> "none"
+Negates(k) == k \in {"okneg", "failNPH"}
 NQueries(k) == IF k = "ok2" THEN 2 ELSE IF Fails(k) THEN 0 ELSE 1
 StateOf(k) == IF k = "okstate" THEN "win" ELSE IF k = "oknest" THEN "nestwin" ELSE "default"
 
-\* st == [pos, stage, out (Seq of <<rule, cond, state>>), errors (Seq of rule), pstate, templates, status]
+\* st == [pos, stage, out (Seq of <<rule, cond, state, templates the plain values were rendered with>>), errors (Seq of rule),
+\*        pstate, templates, status]
+\* restore: does leaving the not-equals context put the templates back when the conversion raised inside it (try/finally)?
 VInit == [pos |-> 1, stage |-> "apply", out |-> <<>>, errors |-> <<>>, pstate |-> "default",
           templates |-> "normal", status |-> "run", pending |-> <<>>]
 
-VStep(kinds, collect, st) ==
+VStepR(kinds, collect, st, restore) ==
     IF st.pos > Len(kinds) THEN [st EXCEPT !.status = "done"]
     ELSE LET k == kinds[st.pos]
+             left == IF restore THEN "normal" ELSE st.templates       \* the templates a failure leaves behind
              fail == IF collect
                      THEN [st EXCEPT !.errors = Append(@, st.pos), !.pos = @ + 1, !.stage = "apply",
-                                     !.templates = "normal", !.pending = <<>>]
-                     ELSE [st EXCEPT !.status = "raised", !.errors = <<st.pos>>, !.templates = "normal"]
+                                     !.templates = left, !.pending = <<>>]
+                     ELSE [st EXCEPT !.status = "raised", !.errors = <<st.pos>>, !.templates = left]
          IN
          CASE st.stage = "apply" ->
                 (IF FailStage(k) = "apply" THEN fail
                  ELSE [st EXCEPT !.stage = "convert", !.pstate = StateOf(k)])     \* state is reset, then set
            [] st.stage = "convert" ->
-                (IF FailStage(k) = "convert" THEN fail                             \* try/finally restored templates
-                 ELSE [st EXCEPT !.stage = "emit",
-                                 !.pending = [c \in 1..NQueries(k) |-> <<st.pos, c, st.pstate>>]])
+                (IF FailStage(k) = "convert" THEN fail
+                 \* the plain values are rendered with the templates in force; then the context of a NOT is entered
+                 ELSE [st EXCEPT !.stage = IF Negates(k) THEN "negated" ELSE "emit",
+                                 !.templates = IF Negates(k) THEN "negated" ELSE @,
+                                 !.pending = [c \in 1..NQueries(k) |-> <<st.pos, c, st.pstate, st.templates>>]])
+           [] st.stage = "negated" ->
+                (IF FailStage(k) = "negated" THEN fail                             \* raised inside the context
+                 ELSE [st EXCEPT !.stage = "emit", !.templates = "normal"])         \* context left in the regular way
            [] OTHER ->
                 [st EXCEPT !.out = @ \o st.pending, !.pending = <<>>, !.pos = @ + 1, !.stage = "apply"]
+VStep(kinds, collect, st) == VStepR(kinds, collect, st, TRUE)
 RECURSIVE VRun(_, _, _)
 VRun(kinds, collect, st) == IF st.status = "run" THEN VRun(kinds, collect, VStep(kinds, collect, st)) ELSE st
 
 \* what every rule yields when it is converted alone, by a fresh backend and pipeline
-Alone(k, i) == [c \in 1..NQueries(k) |-> <<i, c, StateOf(k)>>]
+Alone(k, i) == [c \in 1..NQueries(k) |-> <<i, c, StateOf(k), "normal">>]
 \* the accounting the property demands
 ExpectedOut(kinds) == Concat([i \in 1..Len(kinds) |-> Alone(kinds[i], i)])
 ExpectedErrors(kinds) == SelectSeq([i \in 1..Len(kinds) |-> i], LAMBDA i : Fails(kinds[i]))
